@@ -137,3 +137,45 @@ package adjRIBOut
 //@   ensures propagate && a.sessionAttrs.IBGP && !redist && !a.sessionAttrs.RouteReflectorClient ==> ebgp
 //@   ensures propagate && !a.sessionAttrs.IBGP && a.sessionAttrs.PeerRoleEnabled && a.sessionAttrs.PeerRoleAdvByPeer && (a.sessionAttrs.PeerRoleRemote == packet.PeerRoleRoleProvider || a.sessionAttrs.PeerRoleRemote == packet.PeerRoleRolePeer || a.sessionAttrs.PeerRoleRemote == packet.PeerRoleRoleRS) ==> otc == 0
 //@   ensures propagate && !a.sessionAttrs.IBGP && !a.sessionAttrs.RouteServerClient ==> p.BGPPath.BGPPathA.NextHop == a.sessionAttrs.LocalIP && len(*p.BGPPath.ASPath) >= 1 && len((*p.BGPPath.ASPath)[0].ASNs) >= 1 && (*p.BGPPath.ASPath)[0].ASNs[0] == a.sessionAttrs.LocalASN
+
+// Properties C25 / C26 (see routingtable/zz_contracts_verif.go for what is
+// decided). The Adj-RIB-Out's lock is taken after the Loc-RIB's (the Loc-RIB
+// calls its clients with its own lock held).
+//@ locklevel AdjRIBOut.mu 30
+//@ guarded AdjRIBOut.exportFilterChain by mu
+//@ guarded AdjRIBOut.exportFilterChainPending by mu
+
+//@ contract (*AdjRIBOut).Dump, (*AdjRIBOut).AddPath, (*AdjRIBOut).AddPathInitialDump, (*AdjRIBOut).RemovePath, (*AdjRIBOut).removePathsForPrefix, (*AdjRIBOut).Print, (*AdjRIBOut).ReplaceFilterChain
+//@   props C25 C26
+//@   nosafety
+//@   acquires 30
+//@   locks C25
+//@   guards C26
+
+// Called with the write lock held (RefreshRoute: by ReplaceFilterChain, through
+// the Loc-RIB's RefreshClient, in the same thread).
+//@ contract (*AdjRIBOut).addPath, (*AdjRIBOut).removePath, (*AdjRIBOut).removePathsFromClients, (*AdjRIBOut).removePathFromClients, (*AdjRIBOut).RefreshRoute
+//@   props C25 C26
+//@   nosafety
+//@   requires verif_wheld(&a.mu)
+//@   acquires 31
+//@   locks C25
+//@   guards C26
+
+//@ contract (*AdjRIBOut).Register, (*AdjRIBOut).RegisterWithOptions
+//@   props C25
+//@   nosafety
+//@   acquires 10
+//@   locks C25
+
+//@ contract (*AdjRIBOut).Unregister, (*AdjRIBOut).ClientCount, (*AdjRIBOut).EndOfRIB
+//@   props C25
+//@   nosafety
+//@   acquires 31
+//@   locks C25
+
+//@ contract (*AdjRIBOut).LPM, (*AdjRIBOut).Get, (*AdjRIBOut).GetLonger
+//@   props C25
+//@   nosafety
+//@   acquires 80
+//@   locks C25
